@@ -45,6 +45,7 @@ fn main() {
     }
     // library panics are observations, not crashes: keep the default hook quiet
     std::panic::set_hook(Box::new(|_| {}));
+    if prop == "DEBUG" { props::c13::debug_shapes(); return; }
     let code = match replay {
         Some(path) => props::replay(&prop, &path),
         None => props::run(&prop, tier),
